@@ -3,7 +3,8 @@
    recent-history query, gated after its listing and before every file it reads, while the recorder compacts the
    newest run (gated after creating and after writing the copy) and begins the next one.
    Every line is matched with the specification's step of that name (list, visit <file>, relist, return <answer>,
-   ccreate, cwrite, cunlink, open2, write2); the query's own choice between skipping a vanished file and listing again
+   ccreate, cwrite, cunlink, open2, write2, update - recorded when it returns, the lock is not observed -, findafter);
+   the query's own choice between skipping a vanished file and listing again
    is taken from the trace, so the code before and after the fix both have a matching behaviour, and the property is
    judged on the returned answer:
      C06_QueryNotLinearizable  the answer is not one the store would have given at any moment while the query ran
@@ -21,7 +22,7 @@ Reset == /\ disk' = [f \in Runs \X Kinds |->
                        IF f[1] < R /\ f[2] = "comp" THEN [exists |-> TRUE, st |-> f[1], upd |-> FALSE]
                        ELSE IF f[1] = R /\ f[2] = "orig" THEN [exists |-> TRUE, st |-> R, upd |-> FALSE] ELSE NoFile]
          /\ rpc' = "open" /\ qpc' = "idle" /\ qfiles' = <<>> /\ qacc' = <<>> /\ relists' = 0 /\ valid' = {} /\ answer' = <<>>
-         /\ upc' = "idle" /\ ufile' = <<R, "orig">> /\ ugone' = FALSE /\ readUpd' = FALSE
+         /\ upc' = "idle" /\ ufile' = <<R, "orig">> /\ ugone' = FALSE /\ readUpd' = FALSE /\ lk' = "none"
          /\ lost' = FALSE /\ nq' = E.n /\ qfind' = (E.query = "find")
 \* the query's steps, the branch taken from the trace
 TList == /\ qpc = "idle" /\ qpc' = "iter"
@@ -39,7 +40,7 @@ TRec(d2, pc2) == /\ disk' = d2 /\ rpc' = pc2
                  /\ valid' = IF qpc = "iter" THEN valid \cup {AbstractOf(d2, nq, qfind)} ELSE valid
                  /\ UNCHANGED <<qpc, qfiles, qacc, relists, answer>>
 \* the whole manual update in one step (it runs while the recorder is parked at a gate)
-TUpdate == /\ upc' = "acked" /\ ufile' = FoundFile /\ UNCHANGED <<ugone, readUpd>>
+TUpdate == /\ upc' = "acked" /\ ufile' = FoundFile /\ UNCHANGED <<ugone, readUpd, lk>>
            /\ disk' = [disk EXCEPT ![FoundFile] = [exists |-> TRUE, st |-> R, upd |-> TRUE]]
            /\ UNCHANGED <<rpc, qpc, qfiles, qacc, relists, valid, answer>>
 Enabled(e) ==
@@ -61,7 +62,7 @@ Act(e) ==
     [] e.a = "relist"  -> TRelist
     [] e.a = "return"  -> TReturn
     [] e.a = "ccreate" -> /\ TRec([disk EXCEPT ![<<R, "comp">>] = [exists |-> TRUE, st |-> 0, upd |-> FALSE]], "c_write")
-                          /\ readUpd' = disk[<<R, "orig">>].upd /\ UNCHANGED <<upc, ufile, ugone>>
+                          /\ readUpd' = disk[<<R, "orig">>].upd /\ UNCHANGED <<upc, ufile, ugone, lk>>
     [] e.a = "cwrite"  -> TRec([disk EXCEPT ![<<R, "comp">>].st = R, ![<<R, "comp">>].upd = readUpd], "c_unlink") /\ UNCHANGED uvars
     [] e.a = "cunlink" -> TRec([disk EXCEPT ![<<R, "orig">>] = NoFile], "closed") /\ UNCHANGED uvars
     [] e.a = "open2"   -> TRec([disk EXCEPT ![<<R + 1, "orig">>] = [exists |-> TRUE, st |-> 0, upd |-> FALSE]], "open2") /\ UNCHANGED uvars
